@@ -623,6 +623,9 @@ func RandValue(r *rand.Rand, depth int) V {
 
 var oddKinds = []string{"mystr", "myint", "myf64", "mymap", "mylist", "arr3", "strarr2", "ppint", "pmap", "mapik", "mapifk", "chan", "stringer", "pstringer", "holder", "nilholder", "listnil", "bytes", "errval", "cplx", "uintptr", "nilfunc", "nilslice", "nilstrs", "nilmap", "emptylist", "selfembed", "selfembed1", "pselfembed", "mutual", "mutual1", "rawbytes", "myrunes"}
 
+// OddKinds lists the odd kinds (for exhaustive pairings).
+func OddKinds() []string { return append([]string{}, oddKinds...) }
+
 // OddKind draws a value of a Go kind or shape that ordinary tests do not think of.
 func OddKind(r *rand.Rand) V {
 	k := oddKinds[r.Intn(len(oddKinds))]
